@@ -26,6 +26,10 @@ pub struct Observers {
     pub options: bool,
     /// upstream's own walker as a cross-check of S
     pub upstream_validity: bool,
+    /// C16(b): the decoded dump agrees with what the public API reports
+    pub format: bool,
+    /// C17: every state, transformed to the v0.4 layout, upgrades back to itself
+    pub upgrade: bool,
 }
 
 #[derive(Clone, Debug)]
@@ -62,7 +66,8 @@ impl HistCfg {
             "menu_bits": self.menu,
             "builds_full": self.builds.iter().map(|b| Action::Build { index: self.index, opts: b.clone() }.to_json()).collect::<Vec<_>>(),
             "obs": {"structure": self.obs.structure, "exact_search": self.obs.exact_search, "lattice": self.obs.lattice,
-                    "routing": self.obs.routing, "options": self.obs.options, "upstream_validity": self.obs.upstream_validity},
+                    "routing": self.obs.routing, "options": self.obs.options, "upstream_validity": self.obs.upstream_validity,
+                    "format": self.obs.format, "upgrade": self.obs.upgrade},
         })
     }
 
@@ -91,6 +96,8 @@ impl HistCfg {
                 routing: v["obs"]["routing"].as_bool().unwrap_or(false),
                 options: v["obs"]["options"].as_bool().unwrap_or(false),
                 upstream_validity: v["obs"]["upstream_validity"].as_bool().unwrap_or(false),
+                format: v["obs"]["format"].as_bool().unwrap_or(false),
+                upgrade: v["obs"]["upgrade"].as_bool().unwrap_or(false),
             },
             label: v["label"].as_str().unwrap_or("").to_string(),
         })
@@ -347,6 +354,17 @@ impl System for HistSystem {
             w.count("built_states", 1);
             violations.extend(observe_built(cfg, db, &wtxn, &next, w));
         }
+        if cfg.obs.upgrade && violations.is_empty() {
+            drop(wtxn);
+            if let Err((c, m)) = crate::upgrade::check_state(cfg, &next, is_build, w) {
+                violations.push(Violation::new(c, m));
+            }
+            return if violations.is_empty() {
+                Step { next: Some(next), violations }
+            } else {
+                Step { next: None, violations }
+            };
+        }
         drop(wtxn);
         if violations.is_empty() {
             Step { next: Some(next), violations }
@@ -433,6 +451,11 @@ pub fn observe_built(
     };
     let expect: BTreeSet<u32> = st.model.items.keys().copied().collect();
     let mut structure_ok = true;
+    if cfg.obs.format {
+        if let Err((c, m)) = format_oracle(cfg, db, rtxn, &ix, w) {
+            out.push(Violation::new(c, m));
+        }
+    }
     if cfg.obs.structure || cfg.obs.exact_search || cfg.obs.routing || cfg.obs.lattice {
         match oracle::structure(&ix, &expect, cfg.metric, cfg.dim) {
             Ok(stats) => {
@@ -576,17 +599,29 @@ fn q_unwrap(r: Result<Option<Vec<(u32, f32)>>, String>, what: &str) -> Result<Ve
 
 /// C02: unlimited budget = exact top-k, for every stored id, every lattice vector, a count menu.
 fn exact_search(cfg: &HistCfg, db: RawDb, rtxn: &RoTxn, st: &HState, w: &mut Worker) -> Result<(), oracle::Fail> {
-    let model = &st.model.items;
+    let mut qvecs: Vec<Vec<u32>> = cfg.menu.iter().flatten().cloned().collect();
+    qvecs.sort();
+    qvecs.dedup();
+    exact_search_on(cfg.metric, cfg.dim, cfg.index, db, rtxn, &st.model.items, &qvecs, w)
+}
+
+#[allow(clippy::too_many_arguments)]
+pub fn exact_search_on(
+    metric: Metric,
+    dim: usize,
+    index: u16,
+    db: RawDb,
+    rtxn: &RoTxn,
+    model: &BTreeMap<u32, Vec<u32>>,
+    qvecs: &[Vec<u32>],
+    w: &mut Worker,
+) -> Result<(), oracle::Fail> {
     let n = model.len();
     let mut counts: Vec<usize> = vec![0, 1, 2, n.saturating_sub(1), n, n + 1];
     counts.sort();
     counts.dedup();
-    // query vectors: every menu vector (stored and unstored)
-    let mut qvecs: Vec<Vec<u32>> = cfg.menu.iter().flatten().cloned().collect();
-    qvecs.sort();
-    qvecs.dedup();
-    with_metric!(cfg.metric, D => {
-        let reader = match catch(|| arroy::Reader::<D>::open(rtxn, cfg.index, arroy_db::<D>(db))) {
+    with_metric!(metric, D => {
+        let reader = match catch(|| arroy::Reader::<D>::open(rtxn, index, arroy_db::<D>(db))) {
             Ok(Ok(r)) => r,
             Ok(Err(e)) => return Err(("X/open-failed".into(), format!("Reader::open after a successful build: {e}"))),
             Err(p) => return Err(("X/open-panicked".into(), format!("Reader::open panicked at {}: {}", p.location, p.message))),
@@ -598,17 +633,17 @@ fn exact_search(cfg: &HistCfg, db: RawDb, rtxn: &RoTxn, st: &HState, w: &mut Wor
                     &format!("nns({count}).search_k(MAX).by_item({id})"),
                 )?;
                 w.count("queries", 1);
-                check_result(cfg.metric, cfg.dim, model, v, count, None, &res, Exactness::Exact, true)
+                check_result(metric, dim, model, v, count, None, &res, Exactness::Exact, true)
                     .map_err(|(c, m)| (c, format!("nns({count}).search_k(MAX).by_item({id}): {m}")))?;
             }
-            for v in &qvecs {
+            for v in qvecs {
                 let fv = floats_of(v);
                 let res = q_unwrap(
                     query::<D>(&reader, rtxn, None, Some(&fv), count, Some(usize::MAX), None, None),
                     &format!("nns({count}).search_k(MAX).by_vector({fv:?})"),
                 )?;
                 w.count("queries", 1);
-                check_result(cfg.metric, cfg.dim, model, v, count, None, &res, Exactness::Exact, true)
+                check_result(metric, dim, model, v, count, None, &res, Exactness::Exact, true)
                     .map_err(|(c, m)| (c, format!("nns({count}).search_k(MAX).by_vector({fv:?}): {m}")))?;
             }
         }
@@ -725,6 +760,54 @@ fn options_oracle(
         }
         w.count("opt_capacity_checked", 1);
     }
+    Ok(())
+}
+
+/// C16(b): everything the independent decoder reads from the dump agrees with the public API.
+fn format_oracle(cfg: &HistCfg, db: RawDb, rtxn: &RoTxn, ix: &DIndex, w: &mut Worker) -> Result<(), oracle::Fail> {
+    let meta = match &ix.meta {
+        Some(m) => m,
+        None => return Err(("F/no-metadata".into(), "no metadata record after a build".into())),
+    };
+    with_metric!(cfg.metric, D => {
+        let r = catch(|| -> Result<(), oracle::Fail> {
+            let reader = arroy::Reader::<D>::open(rtxn, cfg.index, arroy_db::<D>(db))
+                .map_err(|e| ("F/open-failed".to_string(), e.to_string()))?;
+            if reader.n_trees() != meta.roots.len() {
+                return Err(("F/roots".into(), format!("Reader::n_trees = {}, decoded metadata lists {} roots", reader.n_trees(), meta.roots.len())));
+            }
+            if reader.dimensions() != meta.dimensions as usize {
+                return Err(("F/dimensions".into(), format!("Reader::dimensions = {}, decoded {}", reader.dimensions(), meta.dimensions)));
+            }
+            if reader.item_ids() != &meta.items {
+                return Err(("F/item-ids".into(), "Reader::item_ids differs from the decoded metadata bitmap".into()));
+            }
+            for (id, leaf) in &ix.items {
+                let api = reader.item_vector(rtxn, *id).map_err(|e| ("F/api".to_string(), e.to_string()))?;
+                let want = crate::layout::api_vector(cfg.metric, cfg.dim, &leaf.vector);
+                if api.map(|v| crate::common::bits_of(&v)) != Some(want) {
+                    return Err(("F/item-vector".into(), format!("Reader::item_vector({id}) differs from the decoded leaf")));
+                }
+            }
+            let stats = reader.stats(rtxn).map_err(|e| ("F/api".to_string(), e.to_string()))?;
+            let splits: usize = stats.tree_stats.iter().map(|t| t.split_nodes).sum();
+            let buckets: usize = stats.tree_stats.iter().map(|t| t.descendants).sum();
+            let dsplits = ix.trees.values().filter(|n| matches!(n, TreeNode::Split { .. })).count();
+            let dbuckets = ix.trees.values().filter(|n| matches!(n, TreeNode::Bucket(_))).count();
+            if splits != dsplits || buckets != dbuckets {
+                return Err(("F/stats".into(), format!("Reader::stats counts {splits} splits / {buckets} buckets, the decoder {dsplits} / {dbuckets}")));
+            }
+            if stats.leaf != ix.items.len() as u64 {
+                return Err(("F/stats".into(), format!("Reader::stats counts {} leaves, the decoder {}", stats.leaf, ix.items.len())));
+            }
+            Ok(())
+        });
+        match r {
+            Ok(x) => x?,
+            Err(p) => return Err((format!("F/api-panicked:{}", p.site()), format!("{}: {}", p.location, p.message))),
+        }
+    });
+    w.count("format_states", 1);
     Ok(())
 }
 
